@@ -22,7 +22,8 @@ Proof. induction F1 as [|[k v] F1 IH]; cbn [app A.getF]; [reflexivity|]. destruc
 Section Build.
 Variable T0 : trie.
 Hypothesis HW : WF T0.
-Hypothesis Hnofail : forall w, fail_of T0 w = None.
+(* only the root's fail link has to be nil before the build: stale links of other nodes (a rebuild) are never read *)
+Hypothesis Hroot0 : fail_of T0 [] = None.
 
 Definition inT0 (w : word) : bool := inT T0 w.
 Definition kids0 (w : word) : list Z := kids_of T0 w.
@@ -38,7 +39,8 @@ Notation lps := (A.lps inT0).
 (* only fail links differ from T0 *)
 Definition SE (T : trie) : Prop :=
   forall w, option_map (fun n => (kids n, nsize n, isEnd n)) (get T w) = option_map (fun n => (kids n, nsize n, isEnd n)) (get T0 w).
-Definition R (T : trie) (F : A.fmap) : Prop := forall w, A.getF F w = fail_of T w.
+Definition R (T : trie) (F : A.fmap) : Prop :=
+  fail_of T [] = None /\ forall w u, A.getF F w = Some u -> fail_of T w = Some u.
 
 Lemma SE_refl : SE T0.
 Proof. intros w. reflexivity. Qed.
@@ -63,52 +65,43 @@ Lemma set_fail_length T w f : length (set_fail T w f) = length T.
 Proof. apply upd_length. Qed.
 
 (* ---- the inner loop ---- *)
-Lemma chain_sim T F c : SE T -> R T F -> forall fuel f,
-  M.chain_find fuel T f c = None \/ M.chain_find fuel T f c = Some (A.chain_find inT0 fuel F f c).
+Lemma chain_ok T F c : SE T -> R T F -> A.getF F [] = None -> forall fuel u,
+  (forall x, x <> [] -> inT0 x = true -> length x <= length u -> A.getF F x = Some (lps x)) ->
+  inT0 u = true -> length u + 2 <= fuel ->
+  M.chain_find fuel T (Some u) c = Some (A.chain_find inT0 fuel F (Some u) c).
 Proof.
-  intros HS HR. induction fuel as [|k IH]; intros f; [left; reflexivity|].
-  cbn [M.chain_find A.chain_find]. destruct f as [u|]; [|right; reflexivity].
-  rewrite (SE_kids T u HS).
+  intros HS [HR0 HR] Hroot. induction fuel as [|k IH]; intros u HF Hu Hf; [lia|].
+  cbn [M.chain_find A.chain_find]. rewrite (SE_kids T u HS).
   destruct (0 <=? index (kids0 u) c)%Z eqn:E.
-  - right. apply (index_iff _ _ (wf_sorted T0 HW u)) in E as Hin.
+  - apply (index_iff _ _ (wf_sorted T0 HW u)) in E as Hin.
     assert (Ez : (0 <= index (kids0 u) c)%Z) by (apply Z.leb_le; exact E).
     destruct (index_found _ _ (wf_sorted T0 HW u) Ez) as [_ En]. unfold kids0 in *. rewrite En.
     apply kids_spec in Hin. unfold inT0 in *. rewrite Hin. reflexivity.
   - assert (Hn : inT0 (u ++ [c]) = false).
     { destruct (inT0 (u ++ [c])) eqn:E2; [|reflexivity]. apply kids_spec in E2.
       apply (index_iff _ _ (wf_sorted T0 HW u)) in E2. unfold kids0 in E. congruence. }
-    rewrite Hn. rewrite <- (HR u). apply IH.
-Qed.
-
-Lemma chain_total T F c : SE T -> R T F -> A.getF F [] = None -> forall fuel u,
-  (forall x, x <> [] -> inT0 x = true -> length x <= length u -> A.getF F x = Some (lps x)) ->
-  inT0 u = true -> length u + 2 <= fuel -> M.chain_find fuel T (Some u) c <> None.
-Proof.
-  intros HS HR Hroot. induction fuel as [|k IH]; intros u HF Hu Hf; [lia|].
-  cbn [M.chain_find]. destruct (0 <=? index (kids_of T u) c)%Z; [discriminate|].
-  rewrite <- (HR u). destruct u as [|a t].
-  - rewrite Hroot. destruct k; [cbn in Hf; lia|]. cbn [M.chain_find]. discriminate.
-  - rewrite (HF (a :: t)) by (auto; discriminate). pose proof (A.lps_shorter inT0 a t) as Hs. apply IH.
-    + intros x Hx HT Hl. apply HF; auto. cbn [length]. lia.
-    + apply A.lps_inT; [exact inT_nil|discriminate].
-    + cbn [length] in Hf. lia.
+    rewrite Hn. destruct u as [|a t].
+    + rewrite HR0, Hroot. destruct k; [cbn in Hf; lia|]. reflexivity.
+    + rewrite (HR (a :: t) (lps (a :: t))) by (apply HF; auto; discriminate).
+      rewrite (HF (a :: t)) by (auto; discriminate). pose proof (A.lps_shorter inT0 a t) as Hs. apply IH.
+      * intros x Hx HT Hl. apply HF; auto. cbn [length]. lia.
+      * apply A.lps_inT; [exact inT_nil|discriminate].
+      * cbn [length] in Hf. lia.
 Qed.
 
 Lemma chain_value a t F T c cfuel : SE T -> R T F -> A.Hyp inT0 (a :: t) F -> length (a :: t) + 1 <= cfuel ->
   M.chain_find cfuel T (fail_of T (a :: t)) c = Some (lps ((a :: t) ++ [c])).
 Proof.
-  intros HS HR HH Hf. pose proof HH as (H1 & H2 & H3). rewrite <- (HR (a :: t)), H2.
+  intros HS HR HH Hf. pose proof HH as (H1 & H2 & H3). rewrite (proj2 HR (a :: t) _ H2).
   pose proof (A.lps_shorter inT0 a t) as Hs. set (u := lps (a :: t)) in *.
   assert (HF : forall x, x <> [] -> inT0 x = true -> length x <= length u -> A.getF F x = Some (lps x))
     by (intros x Hx HT Hl; apply H3; auto; cbn [length]; lia).
   assert (Hu : inT0 u = true) by (apply A.lps_inT; [exact inT_nil|discriminate]).
-  destruct (chain_sim T F c HS HR cfuel (Some u)) as [E|E].
-  - exfalso. apply (chain_total T F c HS HR H1 cfuel u HF Hu); [cbn [length] in Hf; lia|exact E].
-  - rewrite E. f_equal.
-    rewrite (A.chain_find_cf inT0 inT_nil F c H1 cfuel u HF Hu).
-    rewrite (A.cf_best inT0 inT_nil inT_prefix c cfuel u) by (cbn [length] in Hf; lia).
-    rewrite (A.lps_snoc inT0 inT_nil inT_prefix a t c (S (length u))) by (unfold u; lia). fold u.
-    rewrite (A.cf_best inT0 inT_nil inT_prefix c (S (length u)) u) by lia. reflexivity.
+  rewrite (chain_ok T F c HS HR H1 cfuel u HF Hu) by (cbn [length] in Hf; lia). f_equal.
+  rewrite (A.chain_find_cf inT0 inT_nil F c H1 cfuel u HF Hu).
+  rewrite (A.cf_best inT0 inT_nil inT_prefix c cfuel u) by (cbn [length] in Hf; lia).
+  rewrite (A.lps_snoc inT0 inT_nil inT_prefix a t c (S (length u))) by (unfold u; lia). fold u.
+  rewrite (A.cf_best inT0 inT_nil inT_prefix c (S (length u)) u) by lia. reflexivity.
 Qed.
 
 (* ---- one popped node: all its children ---- *)
@@ -124,10 +117,12 @@ Proof.
     assert (Hx : inT0 x = true) by (apply kids_spec; apply Hcs; left; reflexivity).
     destruct (IH (set_fail T x v) (A.assign inT0 (a :: t) F c) (q_push q x) (l ++ [x])) as (T' & q' & E & S' & R' & I' & L').
     + apply SE_set_fail. exact HS.
-    + intros w. rewrite fail_set_fail. destruct (weqb x w) eqn:Ew.
-      * apply weqb_eq in Ew. subst w. rewrite (SE_inT T x HS), Hx. unfold x. rewrite A.getF_assign_eq.
-        f_equal. apply (A.assign_value inT0 inT_nil inT_prefix a t F c HH).
-      * rewrite A.getF_assign; [apply HR|]. intros Ec. fold x in Ec. subst w. rewrite weqb_refl in Ew. discriminate.
+    + destruct HR as [HR0 HR]. split.
+      * rewrite fail_set_fail. change (weqb x []) with false. exact HR0.
+      * intros w u0 Hg. rewrite fail_set_fail. destruct (weqb x w) eqn:Ew.
+        -- apply weqb_eq in Ew. subst w. rewrite (SE_inT T x HS), Hx. unfold x in Hg. rewrite A.getF_assign_eq in Hg.
+           rewrite (A.assign_value inT0 inT_nil inT_prefix a t F c HH) in Hg. exact Hg.
+        -- rewrite A.getF_assign in Hg; [apply HR; exact Hg|]. intros Ec. fold x in Ec. subst w. rewrite weqb_refl in Ew. discriminate.
     + apply A.Hyp_assign. exact HH.
     + apply push_spec. exact HI.
     + intros c' Hc'. apply Hcs. right. exact Hc'.
@@ -212,14 +207,14 @@ Definition FailOK (T : trie) : Prop := forall v, inT0 v = true -> v <> [] -> fai
 
 Lemma bfs_sim : forall fuel T q done l F,
   SE T -> R T F -> A.BInv inT0 kids0 done l F -> Inv q l -> Extra done l -> length T0 <= fuel + length done ->
-  exists T', M.bfs fuel T q = Some T' /\ SE T' /\ FailOK T' /\ length T' = length T.
+  exists T', M.bfs fuel T q = Some T' /\ SE T' /\ FailOK T' /\ length T' = length T /\ fail_of T' [] = None.
 Proof.
   induction fuel as [|k IH]; intros T q done l F HS HR HB HI HE Hf.
   - pose proof (Extra_bound _ _ _ HB HE). lia.
   - cbn [M.bfs]. pose proof (pop_spec q l HI) as Hp. destruct l as [|curr rest].
-    + rewrite Hp. exists T. split; [reflexivity|]. split; [exact HS|]. split; [|reflexivity].
-      intros v HT Hne. rewrite <- (HR v). destruct (A.getF F v) as [u|] eqn:Ev.
-      * destruct (A.b_ok _ _ _ _ _ HB _ _ Ev) as (-> & _ & _). reflexivity.
+    + rewrite Hp. exists T. split; [reflexivity|]. split; [exact HS|]. split; [|split; [reflexivity|exact (proj1 HR)]].
+      intros v HT Hne. destruct (A.getF F v) as [u|] eqn:Ev.
+      * rewrite (proj2 HR v u Ev). destruct (A.b_ok _ _ _ _ _ HB _ _ Ev) as (-> & _ & _). reflexivity.
       * exfalso. assert (Hun : ~ A.assigned F v) by (unfold A.assigned; intros H; apply H; exact Ev).
         destruct (A.unassigned_behind inT0 kids0 inT_prefix kids_spec _ _ _ HB (length v) v (le_n _) HT Hne Hun) as (x & [] & _).
     + destruct Hp as [Hp1 Hp2]. destruct (q_pop q) as [q' o]. cbn [fst snd] in Hp1, Hp2. subst o.
@@ -229,14 +224,14 @@ Proof.
       destruct (process_sim a t (S (length (a :: t))) ltac:(lia) (kids0 (a :: t)) T F q' rest HS HR HH Hp2 ltac:(auto))
         as (T' & q'' & E & S' & R' & I' & L').
       rewrite E.
-      destruct (IH T' q'' ((a :: t) :: done) (rest ++ A.children kids0 (a :: t)) (A.process inT0 kids0 F (a :: t))) as (T'' & E2 & S2 & F2 & L2).
+      destruct (IH T' q'' ((a :: t) :: done) (rest ++ A.children kids0 (a :: t)) (A.process inT0 kids0 F (a :: t))) as (T'' & E2 & S2 & F2 & L2 & Z2).
       * exact S'.
       * exact R'.
       * apply (A.bfs_step inT0 kids0 inT_nil inT_prefix kids_spec). exact HB.
       * exact I'.
       * apply (Extra_step _ _ _ F); auto.
       * cbn [length]. lia.
-      * exists T''. split; [exact E2|]. split; [exact S2|]. split; [exact F2|]. rewrite L2. exact L'.
+      * exists T''. split; [exact E2|]. split; [exact S2|]. split; [exact F2|]. split; [rewrite L2; exact L'|exact Z2].
 Qed.
 
 (* ---- the initial loop over the root's children ---- *)
@@ -251,16 +246,19 @@ Proof.
   - inversion Hnd as [|? ? Hc Hnd']; subst.
     destruct (IH (set_fail T [c] []) (q_push q [c]) (l ++ [[c]]) (([c], []) :: F)) as (S' & R' & I' & L').
     + apply SE_set_fail. exact HS.
-    + intros w. rewrite fail_set_fail. cbn [A.getF]. destruct (A.word_eq_dec [c] w) as [<-|Hne].
-      * rewrite weqb_refl, (SE_inT T [c] HS), (Hin c (or_introl eq_refl)). reflexivity.
-      * rewrite (weqb_neq _ _ Hne). apply HR.
+    + destruct HR as [HR0 HR]. split.
+      * rewrite fail_set_fail. cbn [weqb]. exact HR0.
+      * intros w u Hg. rewrite fail_set_fail. cbn [A.getF] in Hg. destruct (A.word_eq_dec [c] w) as [<-|Hne].
+        -- rewrite weqb_refl, (SE_inT T [c] HS), (Hin c (or_introl eq_refl)). exact Hg.
+        -- rewrite (weqb_neq _ _ Hne). apply HR. exact Hg.
     + apply push_spec. exact HI.
     + intros c' Hc'. apply Hin. right. exact Hc'.
     + exact Hnd'.
     + intros c' Hc'. cbn [A.getF]. destruct (A.word_eq_dec [c] [c']) as [E|_]; [inversion E; subst; contradiction|].
       apply Hun. right. exact Hc'.
     + split; [exact S'|]. split; [|split; [rewrite <- app_assoc in I'; exact I'|rewrite L'; apply set_fail_length]].
-      intros w. rewrite <- R'. cbn [A.getF]. rewrite !getF_app. cbn [A.getF]. rewrite A.getF_map0.
+      destruct R' as [R0' R']. split; [exact R0'|]. intros w u Hg. apply R'. rewrite <- Hg.
+      cbn [A.getF]. rewrite !getF_app. cbn [A.getF]. rewrite A.getF_map0.
       destruct (A.word_eq_dec [c] w); destruct (in_dec A.word_eq_dec w (map (fun c0 : Z => [c0]) cs)); reflexivity.
 Qed.
 
@@ -270,12 +268,12 @@ Proof.
   repeat split; try lia.
 Qed.
 
-Theorem build_correct : exists T', M.build T0 = Some T' /\ SE T' /\ FailOK T' /\ length T' = length T0.
+Theorem build_correct_gen : exists T', M.build T0 = Some T' /\ SE T' /\ FailOK T' /\ length T' = length T0 /\ fail_of T' [] = None.
 Proof.
   unfold M.build, M.init_links. fold (kids0 []).
   pose proof (init_sim (kids0 []) T0 q_init [] [] SE_refl) as HI.
   destruct HI as (S1 & R1 & I1 & L1).
-  - intros w. cbn [A.getF]. symmetry. apply Hnofail.
+  - split; [exact Hroot0|intros w u Hg; discriminate Hg].
   - exact q_init_Inv.
   - intros c Hc. apply kids_spec in Hc. exact Hc.
   - apply kids0_nodup.
@@ -283,7 +281,7 @@ Proof.
   - destruct (fold_left _ (kids0 []) (T0, q_init)) as [T1 q1]. cbn [fst snd] in *. rewrite app_nil_r in R1.
     change (map (fun c => [c]) (kids0 [])) with (A.children kids0 []) in R1, I1. cbn [app] in I1.
     destruct (bfs_sim (S (length T0)) T1 q1 [] (A.children kids0 []) (map (fun w => (w, [])) (A.children kids0 [])))
-      as (T' & E & S' & F' & L').
+      as (T' & E & S' & F' & L' & Z').
     + exact S1.
     + exact R1.
     + apply A.init_BInv; [exact inT_nil|exact kids_spec].
@@ -293,9 +291,14 @@ Proof.
       * intros x [].
       * intros x Hx. cbn [app] in Hx. left. apply A.children_length in Hx. exact Hx.
     + cbn [length]. lia.
-    + exists T'. split; [exact E|]. split; [exact S'|]. split; [exact F'|]. rewrite L'. exact L1.
+    + exists T'. split; [exact E|]. split; [exact S'|]. split; [exact F'|]. split; [rewrite L'; exact L1|exact Z'].
 Qed.
 End Build.
+
+(* the first build: no node has a fail link yet *)
+Theorem build_correct (T0 : trie) (HW : WF T0) (Hnofail : forall w, fail_of T0 w = None) :
+  exists T', M.build T0 = Some T' /\ SE T0 T' /\ FailOK T0 T' /\ length T' = length T0.
+Proof. destruct (build_correct_gen T0 HW (Hnofail [])) as (T' & E & S' & F' & L' & _). exists T'. auto. Qed.
 
 (* ---- every pattern set ---- *)
 Theorem build_inserts_correct (ps : list (list Z)) :
